@@ -245,12 +245,12 @@ func ruleEmit(rule string) func(*Ctx) {
 				}) {
 					bad = "append to " + kind.param + " is not conditional on buildPath(...) returning true"
 				} else {
-					args := bcall.Call.Args // recv, op, reverse, isOpen, path
+					args := roleArgs(bcall, "c", "op", "reverse", "isOpen", "path")
 					if !isFieldLoadOf(args[2], "clipperBase", "reverseSolution") {
 						bad = "buildPath's reverse argument is " + args[2].String() + ", not the engine's reverseSolution option"
 					} else if b, ok := constBool(args[3]); !ok || b != kind.open {
 						bad = fmt.Sprintf("buildPath is called with isOpen=%s for the %s solution", args[3], kind.param)
-					} else if len(a.elems) != 1 || !loadsAllocPassedTo(a.elems[0], bcall, 4) {
+					} else if len(a.elems) != 1 || !loadsAllocPassedTo(a.elems[0], bcall, roleIndex(bcall, "path", 4)) {
 						bad = "the appended path is not the one buildPath just filled"
 					}
 				}
@@ -287,7 +287,7 @@ func ruleEmit(rule string) func(*Ctx) {
 			if len(bcs) != 1 {
 				bad = fmt.Sprintf("expected one buildPath call in checkBounds, found %d", len(bcs))
 			} else {
-				args := bcs[0].Common().Args
+				args := roleArgs(bcs[0], "c", "op", "reverse", "isOpen", "path")
 				fa, isFA := args[4].(*ssa.FieldAddr)
 				switch {
 				case !isFieldLoadOf(args[2], "clipperBase", "reverseSolution"):
@@ -395,9 +395,9 @@ func ruleEmit(rule string) func(*Ctx) {
 				return false
 			}) {
 				bad = "open append is not conditional on buildPath"
-			} else if b, ok := constBool(bcall.Call.Args[3]); !ok || !b {
-				bad = "open paths are built with isOpen=" + bcall.Call.Args[3].String()
-			} else if !isFieldLoadOf(bcall.Call.Args[2], "clipperBase", "reverseSolution") {
+			} else if b, ok := constBool(roleArgs(bcall, "c", "op", "reverse", "isOpen", "path")[3]); !ok || !b {
+				bad = "open paths are built with isOpen=" + roleArgs(bcall, "c", "op", "reverse", "isOpen", "path")[3].String()
+			} else if !isFieldLoadOf(roleArgs(bcall, "c", "op", "reverse", "isOpen", "path")[2], "clipperBase", "reverseSolution") {
 				bad = "open paths ignore reverseSolution"
 			} else if !guardedBy(a.store, true, func(v ssa.Value) bool { return isFieldLoadOf(v, "OutRec", "isOpen") }) {
 				bad = "append to solutionOpen is not selected by outrec.isOpen"
@@ -415,8 +415,8 @@ func ruleEmit(rule string) func(*Ctx) {
 		for _, f := range c.srcFuncs() {
 			for i, bc := range callsTo(c, f, "(clipperBase).buildPath") {
 				n++
-				c.check(isFieldLoadOf(bc.Common().Args[2], "clipperBase", "reverseSolution"), rule+".reverse", fmt.Sprintf("%s.reverse:%s:buildPath#%d", rule, c.fname(f), i+1), bc.Pos(), c.fname(f),
-					"reverse argument is the engine's reverseSolution option", "reverse argument is "+bc.Common().Args[2].String()+": this site ignores the reverse-solution option",
+				c.check(isFieldLoadOf(roleArgs(bc, "c", "op", "reverse", "isOpen", "path")[2], "clipperBase", "reverseSolution"), rule+".reverse", fmt.Sprintf("%s.reverse:%s:buildPath#%d", rule, c.fname(f), i+1), bc.Pos(), c.fname(f),
+					"reverse argument is the engine's reverseSolution option", "reverse argument is "+roleArgs(bc, "c", "op", "reverse", "isOpen", "path")[2].String()+": this site ignores the reverse-solution option",
 					"with reverse-solution every orientation must flip together; a site with a hard-wired flag flips some paths and not others")
 			}
 		}
@@ -481,7 +481,7 @@ func ruleBuildPath(rule string) func(*Ctx) {
 				"a closed solution path must have at least 3 vertices; rings of one or two points must be refused")
 		}
 		// appends inside the loop are guarded by `op2.pt != lastPt`
-		as := appendStores(f, func(a ssa.Value) bool { return a == ssa.Value(f.Params[4]) })
+		as := appendStores(f, func(a ssa.Value) bool { return a == ssa.Value(param(f, "path", 4)) })
 		inLoop := 0
 		for i, a := range as {
 			if !loops[0].blocks[a.store.Block()] {
@@ -717,4 +717,31 @@ func ruleCleanCollinear(rule string) func(*Ctx) {
 				"with preserve-collinear off every collinear vertex must go; with it on only duplicates and 180-degree spikes may: otherwise solutions keep repeated points / spikes or lose wanted vertices")
 		}
 	}
+}
+
+// roleArgs returns the call's arguments in the order of the given parameter roles: an argument is found through the
+// callee parameter that carries the role's name, otherwise at the role's position (a method that became a function,
+// reordered parameters). Missing ones are a nil constant of no use to any test.
+func roleArgs(ci ssa.CallInstruction, roles ...string) []ssa.Value {
+	out := make([]ssa.Value, len(roles))
+	for i, r := range roles {
+		k := roleIndex(ci, r, i)
+		if k >= 0 && k < len(ci.Common().Args) {
+			out[i] = ci.Common().Args[k]
+		} else {
+			out[i] = ssa.NewConst(nil, types.Typ[types.UntypedNil])
+		}
+	}
+	return out
+}
+
+func roleIndex(ci ssa.CallInstruction, role string, pos int) int {
+	if g := ci.Common().StaticCallee(); g != nil {
+		for k, p := range g.Params {
+			if p.Name() == role {
+				return k
+			}
+		}
+	}
+	return pos
 }
